@@ -200,4 +200,17 @@ theorem matchAll_segments (t : matchAllTree) (path seg : Bytes) (next : Nat) (ps
   matchAll_refines E hok t path seg next ps h _
     (matchAllLoopIdx_refines E hok t.baseTree.subtrees t.baseTree.leaves t.bind t.capture 1 path seg next s' rest' ps hc hsp)
 
+/-! ### the hypotheses are met -/
+
+/-- "a/b/c" with the cursor behind the first "/": the premises of `matchAll_segments` hold -/
+example : CursorS [97, 47, 98, 47, 99] 2 ∧ splitSlash (([97, 47, 98, 47, 99] : Bytes).drop 2) = [[98], [99]] := by
+  refine ⟨⟨by decide, by decide, by decide⟩, by decide⟩
+
+/-- hence, for EVERY match-all node, engine and header predicate, the translated body on that path is the segment-level
+loop on the segments `b`, `c` — an instance of the theorem with nothing left to assume -/
+example (E : Flamego.Engine) (hok : Nat → Bool) (t : matchAllTree) (ps : Params) (h : Lib.Header) :
+    matchAll E hok t [97, 47, 98, 47, 99] [97] 2 ps h
+      = (some (tri (matchAllLoop E hok t.baseTree.subtrees t.baseTree.leaves t.bind t.capture 1 [97] [98] [[99]] ps)), t) :=
+  matchAll_segments E hok t [97, 47, 98, 47, 99] [97] 2 ps h [98] [[99]] ⟨by decide, by decide, by decide⟩ (by decide)
+
 end Flamego.C08AllTreeCode
